@@ -1,5 +1,6 @@
 import Hertz.Proofs.Bind
 import Hertz.Proofs.BindRefine
+import Hertz.Proofs.BindNested
 import Hertz.Spec.Bind
 /-!
 # C15 — Binding fills each field from the highest-priority source that carries it
@@ -486,6 +487,162 @@ example : Api.header.byTag = some .header ∧
     Spec.Bind.specBindBy (some .header) seqType seqReq = .ok [.unset, .unset, .one (.s [104, 118])] ∧
     Spec.Bind.specBindBy (some .query) seqType {} = .err .required := by decide
 
+
+/-! ## nested struct types and streamed bodies (extension X15)
+
+Model: `Model/BindNested.lean` — a struct type is a `Forest` (field tree of any depth and width; struct-typed fields by
+value, behind pointers, embedded); `compileN` is `getFieldDecoder` with its `parentIdx` / `parentJSONName` built per
+child; `runN` runs the decoders on a store addressed by full index paths (`fault` = Go would panic); `bindN` threads
+the state of the request body (buffered / unread stream / drained stream).  Spec: the nested section of
+`Spec/Bind.lean` (`specBindN`: every leaf is bound as a top-level field of the request focused on its enclosing JSON
+object).  Run against the real binder on `reflect.StructOf` types by the `nbind` cases of the harness. -/
+
+/-- **Two different leaves never get the same index path**: the leaf decoders `getFieldDecoder` builds for a type of
+any depth and width address pairwise different `parentIndex ++ [index]` paths (the statement a shared backing array
+between sibling paths breaks). -/
+theorem index_paths_distinct (t : Forest) :
+    (((compileN [] [] 0 t).filter (fun d => !d.isStruct)).map (fun d => d.parentIdx ++ [d.index])).Nodup := by
+  rw [compileN_paths]; exact leafPaths_nodup t [] 0
+
+/-- … and they are exactly the leaves of the type, in field order (depth first) -/
+theorem index_paths_are_the_leaves (t : Forest) :
+    ((compileN [] [] 0 t).filter (fun d => !d.isStruct)).map (fun d => d.parentIdx ++ [d.index]) = leafPaths [] 0 t :=
+  compileN_paths t [] [] 0
+
+/-- **A leaf decoder of a nested type is the decoder of a top-level field** run on the request whose JSON body is the
+object enclosing the leaf (dotted path of the parents' JSON names), unless a `required` json tag is waived because that
+object is absent (class `nested-required-waived`): position, siblings and depth play no role. -/
+theorem nested_leaf_is_top_level_field (q : NReq) (P : List Bytes) (f : Field) (pre : FieldVal) (pidx : Path) (i : Nat)
+    (hw : Spec.Bind.clsWaived q P f = false) :
+    ({ parentIdx := pidx, index := i, jparent := P, dec := compileField f } : NDec).run q pre =
+      (compileField f).run (Spec.Bind.focus q P) pre :=
+  leaf_run_focus q P f pre pidx i hw
+
+/-- the JSON name a struct-typed field hands down (`newParentJSONName`) is the one the specification uses -/
+theorem parent_json_name_as_documented (hdr : Field) : newParentName hdr = Spec.Bind.specName hdr :=
+  newParentName_eq hdr
+
+/-- **Refinement for nested types.**  For every field tree of any depth and width (`ForestWF`: every field well-formed
+as in `bind_refines_spec_partial`; struct-typed fields without `required` and without a default, no embedded struct
+whose fields are promoted) and every request in
+any body state, outside the known-finding classes (`NoClass`: the four flat classes per leaf on its focused request,
+`nested-required-waived`, and the JSON path of the unmarshaller = the JSON path of the tags), `Bind` computes exactly
+the specification: every leaf receives exactly its own value — the first present source named by its own tags. -/
+theorem nested_bind_refines_spec_partial (t : Forest) (q : NReq) (hwf : ForestWF t) (hc : NoClass q.seen t) :
+    (bindN t q).1 = Spec.Bind.specBindN t q :=
+  bindN_refines t q hwf hc
+
+/-- **No panic while addressing fields**: for EVERY field tree and EVERY request and body state (no exclusions), the
+decoders `getFieldDecoder` builds never address an index path that is not a leaf of the bound value (`fault` = the
+`reflect` panic in `GetFieldValue(…).Field(index)`) — what a path shared between siblings destroys. -/
+theorem nested_bind_never_faults (t : Forest) (q : NReq) : (bindN t q).1 ≠ .fault :=
+  bindN_no_fault t q
+
+/-- `A struct { X int json:"x,required" }` -/
+def waivedType : Forest :=
+  .strct { name := [65], ty := { base := .str } } false
+    (.leaf { name := [88], ty := tyInt, tags := [(.json, [120] ++ [44] ++ requiredOpt)] } .nil) .nil
+
+/-- `Content-Type: application/json`, body `{}` -/
+def waivedReq : NReq := { r := { ct := mimeJSON, body := .json [] } }
+
+set_option maxRecDepth 100000 in
+/-- Without `NoClass` the refinement is FALSE of the code: a `required` json leaf inside a struct whose object is
+absent from a JSON body is bound to a silent zero (`checkRequireJSON`: "there should be a superior"), while the
+property demands an error.  (class `nested-required-waived`; replayed against the Go code by the harness) -/
+theorem nested_bind_refines_spec_fails_at :
+    ForestWF waivedType ∧ (bindN waivedType waivedReq).1 = .ok [.unset] ∧
+    Spec.Bind.specBindN waivedType waivedReq = .err .required ∧
+    Spec.Bind.clsWaived waivedReq.seen [[65]] { name := [88], ty := tyInt, tags := [(.json, [120] ++ [44] ++ requiredOpt)] } = true := by
+  decide
+
+/-- `struct { Common; … }` with `type Common struct { Page int json:"page" default:"1" }` (embedded) -/
+def embeddedType : Forest :=
+  .strct { name := [67], ty := { base := .str } } true
+    (.leaf { name := [80], ty := tyInt, tags := [(.json, [112])], dflt := some [49] } .nil) .nil
+
+/-- `Content-Type: application/json`, body `{"p":5}` -/
+def embeddedReq : NReq := { r := { ct := mimeJSON, body := .json [([112], .atom (.int 5))] } }
+
+set_option maxRecDepth 100000 in
+/-- Second witness (class `embedded-json-path`, a DEFECT reproduced on the real code, patch
+`patches/C15-embedded-json-path.diff`): the unmarshaller promotes the fields of an embedded struct into the enclosing
+object and stores 5, but `keyExist` looks for `Common.page`, does not find it, and the declared default 1 overwrites
+the value the body carries (likewise a `required` promoted field is never enforced). -/
+theorem embedded_default_fails_at :
+    Spec.Bind.promoted { name := [67], ty := { base := .str } } true = true ∧
+    (bindN embeddedType embeddedReq).1 = .ok [.one (.i 1)] ∧
+    Spec.Bind.specBindN embeddedType embeddedReq = .ok [.one (.i 5)] := by
+  decide
+
+/-- **Binding the same request twice gives the same result**, whatever the state of its body: the second bind sees
+the request as the first one left it (`preBindBody` calls `Request.Body()`, which copies a body stream into the
+request buffer). -/
+theorem bind_idempotent_on_request (t : Forest) (q : NReq) : (bindN t (bindN t q).2).1 = (bindN t q).1 :=
+  bindN_twice t q
+
+/-- … and a body delivered as a stream is bound as the same body delivered in the buffer -/
+theorem bind_independent_of_body_delivery (t : Forest) (q : NReq) :
+    (bindN t { q with st := .stream }).1 = (bindN t { q with st := .buffered }).1 :=
+  bindN_delivery t q .stream .buffered (by decide) (by decide)
+
+/-- both binds of a request meet the specification -/
+theorem both_binds_refine_spec_partial (t : Forest) (q : NReq) (hwf : ForestWF t) (hc : NoClass q.seen t) :
+    bindTwice t q = (Spec.Bind.specBindN t q, Spec.Bind.specBindN t q) := by
+  unfold bindTwice
+  rw [bind_idempotent_on_request, nested_bind_refines_spec_partial t q hwf hc]
+
+def leafQ (n : UInt8) (k : Bytes) : Field := { name := [n], ty := tyInt, tags := [(.query, k)] }
+def hdrS (n : Bytes) (p : Nat) : Field := { name := n, ty := { base := .str, ptr := p } }
+
+/-- `Root { A { B *{ C { D1 {X,Y int query x1,y1}; D2 *{X,Y int query x2,y2} } } } }`: two sibling structs at depth 4 -/
+def deepType : Forest :=
+  .strct (hdrS [65] 0) false (.strct (hdrS [66] 1) false (.strct (hdrS [67] 0) false
+    (.strct (hdrS [68, 49] 0) false (.leaf (leafQ 88 [120, 49]) (.leaf (leafQ 89 [121, 49]) .nil))
+      (.strct (hdrS [68, 50] 1) false (.leaf (leafQ 88 [120, 50]) (.leaf (leafQ 89 [121, 50]) .nil)) .nil)) .nil) .nil) .nil
+
+/-- query `x1=10&y1=20&y2=40` -/
+def deepReq : NReq := { r := { query := [([120, 49], [49, 48]), ([121, 49], [50, 48]), ([121, 50], [52, 48])] } }
+
+set_option maxRecDepth 100000 in
+/-- index_paths_distinct / nested_bind_refines_spec_partial (non-vacuity): the four leaves sit at
+`[0,0,0,0,0] [0,0,0,0,1] [0,0,0,1,0] [0,0,0,1,1]`; D1 gets 10 and 20, D2 gets 0 and 40 -/
+example : leafPaths [] 0 deepType = [[0, 0, 0, 0, 0], [0, 0, 0, 0, 1], [0, 0, 0, 1, 0], [0, 0, 0, 1, 1]] ∧
+    ForestWF deepType ∧ NoClassB deepReq.seen deepType ∧
+    (bindN deepType deepReq).1 = .ok [.one (.i 10), .one (.i 20), .unset, .one (.i 40)] := by decide
+
+/-- `Item string json:"item,required"`, `Qty int json:"qty" default:"1"`, `Meta { Cur string json:"cur,required" default:"USD" }` -/
+def orderType : Forest :=
+  .leaf { name := [73], ty := { base := .str }, tags := [(.json, [105] ++ [44] ++ requiredOpt)] }
+    (.leaf { name := [81], ty := tyInt, tags := [(.json, [113])], dflt := some [49] }
+      (.strct (hdrS [77] 0) false
+        (.leaf { name := [67], ty := { base := .str }, tags := [(.json, [99] ++ [44] ++ requiredOpt)], dflt := some [85] } .nil) .nil))
+
+/-- `{"i":"p","q":25,"M":{"c":"E"}}` delivered as a body stream -/
+def orderReq : NReq :=
+  { r := { ct := mimeJSON, body := .json [([105], .atom (.str [112])), ([113], .atom (.int 25)), ([77], .atom .obj)] },
+    deep := [{ parents := [[77]], key := [99], val := .atom (.str [69]) }], st := .stream }
+
+set_option maxRecDepth 100000 in
+/-- bind_idempotent_on_request / both_binds_refine_spec_partial (non-vacuity): streamed JSON body, `required` and
+`default` on json fields at two levels; both binds give item "p", qty 25, cur "E"; the stream is buffered afterwards -/
+example : ForestWF orderType ∧ NoClassB orderReq.seen orderType ∧
+    bindTwice orderType orderReq = (.ok [.one (.s [112]), .one (.i 25), .one (.s [69])], .ok [.one (.s [112]), .one (.i 25), .one (.s [69])]) ∧
+    (bindN orderType orderReq).2.st = .buffered ∧
+    (bindN orderType { orderReq with st := .drained }).1 = .err .body := by decide
+
+set_option maxRecDepth 100000 in
+/-- nested_bind_never_faults: the fault outcome is real — the decoders of the depth-4 type with the index path of
+sibling D1 redirected to D2's struct (what the shared backing array does) and D2 given one field only: fault -/
+example :
+    runN deepReq [{ parentIdx := [0, 0, 0, 1], index := 1, jparent := [], dec := compileField (leafQ 89 [121, 49]) }]
+      [([0, 0, 0, 0, 0], .unset), ([0, 0, 0, 0, 1], .unset), ([0, 0, 0, 1, 0], .unset)] = .fault := by decide
+
+set_option maxRecDepth 100000 in
+/-- nested_leaf_is_top_level_field (non-vacuity): the hypothesis holds for leaf `Cur` inside `M` -/
+example : Spec.Bind.clsWaived orderReq.seen [[77]]
+    { name := [67], ty := { base := .str }, tags := [(.json, [99] ++ [44] ++ requiredOpt)], dflt := some [85] } = false := by decide
+
 /-
 TODO-OPEN
   `bind_refines_spec` is now PROVED as `bind_refines_spec_partial`: for all field lists and requests,
@@ -503,7 +660,14 @@ TODO-OPEN
     point as `tagCache` does: `entry_points_pure`, tied to the source by `entry_points_match_gen`) and concurrent binds;
   * outcomes `unk` are equal on both sides by the theorem, but what the real code does there (floats outside
     the canonical grammar, JSON texts outside the small grammar) is only copied from the implementation;
-  * nested structs, arrays, maps, `raw_body`, `file_name`, custom decoders: outside the model.
+  * nested structs are now INSIDE the model (extension X15: `index_paths_distinct`, `nested_bind_refines_spec_partial`,
+    `bind_idempotent_on_request`).  Open there: (a) struct-typed fields that themselves carry `required` or a default,
+    and a text addressed to a struct-typed field (decoded as JSON into the struct): excluded by `ForestWF` / `unk` in the
+    model, checked per case by the driver (`Spec.Bind.specStruct` on the implementation's output); (b) allocation of
+    pointer-to-struct parents is not observed (a nil pointer is rendered as a struct of zero leaves); (c) embedded structs
+    whose promoted names clash with names of the enclosing struct, repeated object-valued keys, names containing `.`:
+    assumptions of the generator; (d) tag-restricted entry points (`BindQuery` …) on nested types are not modelled;
+  * arrays, maps, `raw_body`, `file_name`, custom decoders: outside the model.
 -/
 
 end Hertz.Props.C15
